@@ -193,7 +193,7 @@ CURATED = [
     "x sgn(y)", "1.5x", ".5x", "5.", "1.2.3", ".", "1..2", "0.1 + 0.2", "7 + 4x - 2 = 3", "x = y = 2", "[x + 2] * 3", "4x–2",
     "12345678901234567891 + 1", "9007199254740993 - 9007199254740992", "2(10000000000000001)",
     "2.9999999999x + 1", "1e5", "2e", "x e", "(((((x)))))", "((x + 1)(x - 1))^2", "x(", "()", "( )", "2 +", "+ 2", "2 2", "x 2", "(2)(3)",
-    "2(3)", "(2)3", "x!", "(3)!", "2!!", "!", "^", "=", "2 = ", "= 2", "x ^ ^ 2", "sgn", "sgn x", "sgn()", "sgn(x", "abs(x)", "2abs(x - 1)", "abs", "absolute(x) + 1", "-(-x)", "--x",
+    "2(3)", "(2)3", "x!", "(3)!", "2!!", "!", "^", "=", "2 = ", "= 2", "x ^ ^ 2", "sgn", "sgn x", "sgn()", "sgn(x", "abs(x)", "2abs(x - 1)", "abs", "absolute(x) + 1", "4x\r\ny", "7 +\r\n2x", "2\r\n3x", "x\r\n+ 1", "x \r\n y", "\r\nx", "x\r\n", "2\r\n\r\n3", "sgn(\r\nx)", "4\rx", "4\n\rx", "1.5\r\n2", "-(-x)", "--x",
     "- - x", "2 - -x", "2--2", "2 - - 2", "4x^2^", "1/0", "x/(y-y)", "0x = 0", "4 + -3", "4 +- 3", "4 -+ 3", "a+b=c+d=e", "2x^(1+1)",
     "x^(y)", "x^y^z", "(x^y)^z", "(2^3)^2", "((x^2)^3)^2", "(x^-2)^y", "3 / -((x + 1) * y)", "x^-((x + 1) * y)", "2 / -((x - 1) / y)", "-((x + 1) * y) / 3",
     "SGN(x)", "Sgn(2)", "sGn(x) + 1", "2SGN(x^2) = 1", "4 + Sgn(-3y)", "sgN x", "xy^2^3", "2x^2^3", "x^2^3^2", "xyz^2^y", "0.00005x + 1", "0.001 * 0.02", "0.0000004x",
